@@ -28,6 +28,16 @@ def edit_program(r):
     return items
 
 
+def scope_program(r):
+    """a -g/-v scope that extracts a field: on files where it never runs nothing is extracted"""
+    pat = r.choice(gen.PATTERNS + ["zzzz", "zzzz"])
+    inner = [("c", None, gen.passive_cmd(r))] + ([("m", gen.edit_cmd(r))] if r.random() < 0.4 else [])
+    items = [("g", r.random() < 0.75, pat, inner, None)]
+    if r.random() < 0.4:
+        items.insert(0, ("m", gen.edit_cmd(r)))
+    return items
+
+
 def passive_program(r):
     return [("m", gen.passive_cmd(r)) for _ in range(r.randint(1, 3))]
 
@@ -64,7 +74,7 @@ def run(tier, seed, replay=None):
         names = r.sample(NAMES, nf)
         files = {k: content(r) for k in names}
         passive = r.random() < 0.3
-        items = passive_program(r) if passive else edit_program(r)
+        items = passive_program(r) if passive else (scope_program(r) if r.random() < 0.25 else edit_program(r))
         mode = r.choice(list(MODES))
         cases.append((files, gen.items_argv(items), mode, r.random() < 0.4, passive))
     if replay:
